@@ -48,7 +48,7 @@ def _outcome(fn):
         return ("+".join(kinds) if kinds else type(e).__name__), None
 
 
-ENTRY = ("datetime", "datetime_local_str", "create", "convert", "instance", "set", "replace", "replace_fold", "on_at", "on_keep_time_summer", "on_keep_time_winter", "set_foreign", "on_at_foreign",
+ENTRY = ("datetime", "datetime_local_str", "set_same_raw", "at_same_raw", "on_same_raw", "set_nothing_raw", "create", "convert", "instance", "set", "replace", "replace_fold", "on_at", "on_keep_time_summer", "on_keep_time_winter", "set_foreign", "on_at_foreign",
          "parse", "tz_datetime", "naive_in_tz", "local")
 
 
@@ -82,6 +82,17 @@ def _call(pendulum, name, z, tzobj, f, fold, rse, recv):
     if name == "instance":
         n = dt_.datetime(y, mo, d, h, mi, s, us, fold=fold)
         return fold, lambda: pendulum.instance(n, tz=tzobj)
+    if name.endswith("_raw"):
+        # a receiver that ALREADY shows the requested wall time without having been normalised (the class constructor stores
+        # fields as given); the setters are handed the values it shows
+        r = pendulum.DateTime(y, mo, d, h, mi, s, us, tzinfo=tzobj, fold=fold)
+        if name == "set_same_raw":
+            return fold, lambda: r.set(year=y, month=mo, day=d, hour=h, minute=mi, second=s, microsecond=us)
+        if name == "at_same_raw":
+            return fold, lambda: r.at(h, mi, s, us)
+        if name == "on_same_raw":
+            return fold, lambda: r.on(y, mo, d)
+        return fold, lambda: r.set()
     if name == "set":
         r = recv[fold]
         return r.fold, lambda: r.set(year=y, month=mo, day=d, hour=h, minute=mi, second=s, microsecond=us)
